@@ -96,6 +96,13 @@ Fits(c) == InTable(c) => Len(Msg(c.n)) < Obs.slot
 
 Bad == {c \in Codes : ~(InTable(c) /\ NonEmpty(c) /\ DescribesIt(c) /\ Own(c) /\ Fits(c))}
 
+\* "for any value returned by the library": the values the battery of calls returned (traversals and parses stopped, skipped
+\* or failed by their handlers at every position, defective documents under each error policy, failing data-management
+\* calls) are result codes cif.h defines -- so each has its entry in the table, checked above
+Returned == IF "returned" \in DOMAIN Obs THEN {Obs.returned[i] : i \in 1..Len(Obs.returned)} ELSE {}
+Alien == {r \in Returned : ~\E c \in Codes : c.n = r}
+ReturnedValuesAreCodes == Alien = {}
+
 VARIABLE done
 Init == done = FALSE
 Next == done = FALSE /\ done' = TRUE
@@ -103,5 +110,5 @@ Spec == Init /\ [][Next]_done
 
 EveryCodeHasItsMessage == Bad = {}
 \* printed so that the driver can name the offending codes
-Report == PrintT(<<"BAD", ToJson({[name |-> c.name, n |-> c.n] : c \in Bad})>>) /\ PrintT(<<"COUNT", ToJson([codes |-> Cardinality(Codes)])>>)
+Report == PrintT(<<"BAD", ToJson({[name |-> c.name, n |-> c.n] : c \in Bad})>>) /\ PrintT(<<"COUNT", ToJson([codes |-> Cardinality(Codes)])>>) /\ PrintT(<<"ALIEN", ToJson(Alien)>>)
 =============================================================================
